@@ -57,6 +57,10 @@ ScriptTwoTables == <<{"create"}, {"create"}, {"insert"}, {"insert"}, {"insert"},
 StmtOK == pc.k = "idle" /\ cnt.st < MaxStmts /\ taint = {}
 Scripted(kind) == Script = <<>> \/ (cnt.st < Len(Script) /\ kind \in Script[cnt.st + 1])
 ScriptedRows(n) == ScriptRows = <<>> \/ (cnt.st < Len(ScriptRows) /\ n \in ScriptRows[cnt.st + 1])
+\* a table grown until its root is an internal page, one more logged insert, then row ids handed out by unlogged
+\* statements (CREATE TABLE); a crash anywhere; then statements that take fresh row ids
+ScriptGrowThenDdl == <<{"create"}, {"insert"}, {"insert"}, {"insert"}, {"create"}, {"create", "insert"}, {"create", "insert"}>>
+RowsGrowThenDdl == <<{0}, {2}, {2}, {1, 2}, {0}, {1, 2}, {1, 2}>>
 RowsNone == <<>>
 RowsInsUpdSplit == <<{0}, {3}, {1}, {1}, {0}, {1}>>
 RowsInsDelSplit == <<{0}, {3}, {1}, {1}, {0}, {1}, {1}>>
